@@ -1019,7 +1019,7 @@ def judge(run, res, line, o):
     check_quant(run, lkey, ldet, mirrored, qcls, cfg, a["config"], qj["config"], qvals, dels)
     # hyper-parameters: everything outside the quantizer keys is what it was
     for k, v in cfg.items():
-      if k in written:
+      if k in written or k in dels:   # the ReLU-specific keys are removed on purpose (checked below)
         continue
       if a["config"].get(k, "<absent>") != v:
         run.violate("hyperparams", dict(lkey, key=k, where="rewritten json"), ldet, mirrored=mirrored)
